@@ -486,12 +486,21 @@ def gen_spec(rng, cfg: dict | None = None) -> dict:
             if prev['leftAsset'] != prev['rightAsset']:
                 name, lt, rt = prev['name'], prev['rightAsset'], prev['leftAsset']
         if (name, lt, rt) in used_assoc_keys or (lt == rt and (name, rt, lt) in used_assoc_keys):
-            continue
+            # the language graph keeps only the first of two associations with one name
+            # between the same (left, right) types; the compiler must keep both
+            if not cfg.get('allow_same_signature_assocs') or rng.random() < 0.5:
+                continue
         # field rf is a field *of lt's family*, lf a field of rt's family
         taken_l = g.field_names_in_family(lt) | g.step_names_in_family(lt)
         taken_r = g.field_names_in_family(rt) | g.step_names_in_family(rt)
         pool = list(FIELD_NAMES)
         rng.shuffle(pool)
+        if g.assocs and rng.random() < 0.25:
+            # bias: the same *pair* of field names as an association between other types
+            prev = rng.choice(g.assocs)
+            pool = [prev['rightField'], prev['leftField']] + pool
+            if rng.random() < 0.5:
+                pool = [prev['leftField'], prev['rightField']] + pool[2:]
         rf = next((f for f in pool if f not in taken_l), None)
         if rf is None:
             continue
